@@ -1,5 +1,6 @@
 """C09 - formatting and naming options never change the computed model."""
 
+import numpy as np
 from hypothesis import strategies as st
 
 from .. import build, colfmt, e2e, pipeline, strat, topo
@@ -82,7 +83,12 @@ def case(draw):
         cif = dict(multi=draw(st.integers(0, 2)) > 0, bigseq=draw(st.booleans()))
         for ch in desc["chains"]:
             ch.pop("altmod", None)
-    return dict(part="opts", kind=kind, desc=desc, ff=ff, base=base, extra=extra, tit=tit, cif=cif)
+    lig = None
+    if kind == "format" and cif is None and draw(st.integers(0, 3)) == 0:
+        # a --ligand complex: the ligand's records carry the id of one of the protein chains (or their own)
+        lig = dict(choices=draw(st.lists(st.integers(0, 10**6), min_size=24, max_size=40)),
+                   chain=draw(st.sampled_from(["L", "first", "first", "last"])), seq=draw(st.sampled_from([500, 900])))
+    return dict(part="opts", kind=kind, desc=desc, ff=ff, base=base, extra=extra, tit=tit, cif=cif, lig=lig)
 
 
 def _fields(ln):
@@ -106,6 +112,18 @@ def check(case):
             c06.PKA[(ch["id"], ch["start"] + i)] = v
         args0 += ["--titration-state-method=propka", f"--with-ph={case['tit']['ph']}"]
         res.label("titration")
+    xfiles = {}
+    if case.get("lig"):
+        from .. import molgen
+
+        m = molgen.random_mol(molgen.Chooser(case["lig"]["choices"]), max_atoms=25)
+        names = molgen.default_names(m)
+        cid = {"L": "L", "first": desc["chains"][0]["id"], "last": desc["chains"][-1]["id"]}[case["lig"]["chain"]]
+        for i in range(len(m.atoms)):
+            s.add(name=names[i], resn="LIG", chain=cid, seq=case["lig"]["seq"], xyz=np.array(molgen.coords(i)) + 70.0, rec="HETATM", group=("lig", i))
+        xfiles = {"lig.mol2": molgen.to_mol2(m, names)}
+        args0.append("--ligand=@DIR@/lig.mol2")
+        res.label("ligand", f"ligand-chain={case['lig']['chain']}")
     in_text, ext = s.text(), "pdb"
     if case.get("cif"):
         in_text, cmap = e2e.structure_to_cif(s, case["cif"])
@@ -115,7 +133,7 @@ def check(case):
             for ci, i, v in case["tit"]["pka"]:
                 ch = desc["chains"][ci]
                 c06.PKA[(cmap[ch["id"]], ch["start"] + i)] = v
-    r0 = pipeline.run(in_text, args0, ext=ext)
+    r0 = pipeline.run(in_text, args0, ext=ext, extra_files=xfiles)
     res.label(f"kind={kind}", f"ff={ff}", *[o.split("=")[0] for o in extra])
     if not r0.ok:
         res.label("base-run-failed")
@@ -131,7 +149,7 @@ def check(case):
         res.nontrivial = False
         return res
     if kind == "format":
-        r1 = pipeline.run(in_text, args0 + extra, ext=ext)
+        r1 = pipeline.run(in_text, args0 + extra, ext=ext, extra_files=xfiles)
         if not r1.ok:
             res.bad("C09:option-breaks-run", f"adding {extra} makes the run fail: {r1.exc_text[:100]}")
             return res
